@@ -340,6 +340,27 @@ def run(eng: Engine, ck: Check):
             lens = [x for x in calls_in(m.node) if call_name(x) == 'uint32' and x.args and
                     isinstance(expand_aliases(m, x.args[0]), ast.Call) and call_name(expand_aliases(m, x.args[0])) == 'len']
             okw = okw and len(lens) == 1
+            if len(lens) == 1:
+                # the length is taken of exactly the bytes that are written after it (string: the ENCODED bytes, not the characters)
+                def norm(e):
+                    x_ = expand_aliases(m, e)
+                    if isinstance(x_, ast.Call) and call_name(x_) == 'bytes' and len(x_.args) == 1:
+                        x_ = x_.args[0]
+                    return unparse(x_)
+                measured = norm(expand_aliases(m, lens[0].args[0]).args[0])
+                bp_ = [p_ for p_ in m.params if p_ != 'self']
+                written = [norm(x.args[0]) for x in calls_in(m.node) if call_name(x) == 'extend' and x.args and bp_ and unparse(x.func.value) == bp_[0]] + \
+                          [norm(n.value) for n in walk_local(m.node) if isinstance(n, ast.AugAssign) and isinstance(n.op, ast.Add) and bp_ and unparse(n.target) == bp_[0]]
+                for r in [n for n in walk_local(m.node) if isinstance(n, ast.Return) and n.value is not None]:
+                    v_ = expand_aliases(m, r.value)
+                    if isinstance(v_, ast.BinOp) and isinstance(v_.op, ast.Add):
+                        written.append(norm(v_.right))
+                same = written == [measured]
+                if name == 'string':
+                    same = same and 'encode(' in measured
+                ck.ob('R-C01-PRIMSYM', m, lens[0], f'{name}.{mn}: the length prefix is the length of exactly the bytes written after it', same,
+                      f'length of `{measured}`, bytes written `{written}`' + (' — len() of a str counts characters, the wire counts bytes: every non-ASCII string gets a short prefix'
+                                                                            if name == 'string' and 'encode(' not in measured else ''), construct=f'{name}.{mn} length of payload')
         d = ci.methods['deserialize']
         posp, datap = [p_ for p_ in d.params if p_ != 'cls'][:2]
         hdr = pfind(d.node, f'$pa, $ln = uint32.deserialize({posp}, {datap})')
